@@ -3,7 +3,6 @@ package bed
 import (
 	"context"
 	"fmt"
-	"hash/fnv"
 	"sync"
 	"sync/atomic"
 	"time"
@@ -71,9 +70,11 @@ func (b *Bed) NewClient(col, alias string) *Client {
 	cli := orda.NewClient(&orda.ClientConfig{CollectionName: col, SyncType: model.SyncType_MANUALLY}, alias)
 	crdt.QuietClient(cli)
 	st := model.SyncType_MANUALLY
-	h := fnv.New32a()
-	h.Write([]byte(alias))
-	if (h.Sum32()+atomic.AddUint32(&b.nClients, 1))%3 == 0 {
+	sum := uint32(0)
+	for i := 0; i < len(alias); i++ {
+		sum += uint32(alias[i])
+	}
+	if (sum+atomic.AddUint32(&b.nClients, 1))%3 == 0 {
 		st = model.SyncType_REALTIME // about every third direct-mode client registers as a realtime one (a function of the case alone)
 	}
 	return &Client{B: b, Col: col, Alias: alias, Cli: cli, SyncType: st}
